@@ -6,6 +6,7 @@
 //  B  arbitrary request bytes (length enumerated) against a reference model built from Meta<> decoders.
 //@tu unwind=12 memunwind=60 loop:ReadEntries=3
 //@h _n(\d+)$ : unwind=16
+//@h _n1[6-9]$ : unwind=22
 #include "io.h"
 #include "pool.h"
 #include <nop/rpc/interface.h>
@@ -72,7 +73,7 @@ static auto make_bindings_b() { return nop::BindInterface(IB::Neg::Bind(&neg_fn)
 
 // ---- loop-back transport
 struct Wire {
-  std::uint8_t req[40]; std::size_t req_len = 0, req_used = 0;
+  std::uint8_t req[48]; std::size_t req_len = 0, req_used = 0;
   std::uint8_t rep[24]; std::size_t rep_len = 0;
   nop::Status<void> status; int serves = 0;
 };
